@@ -12,16 +12,20 @@ pub struct Case {
     pub g: GraphCase,
     pub weighted: bool,
     pub subset: Vec<u32>,
+    /// the implementation sees every weight divided by this power of two (exact in f64; the weighted coefficients are
+    /// normalised by the largest weight, so the model, which works on the integer numerators, must give the same bits)
+    pub wdiv: u32,
 }
 impl Case {
     pub fn request(&self) -> String {
-        format!("clu {} {} {}{}", self.g.tokens(), self.weighted as u8, self.subset.len(), self.subset.iter().map(|x| format!(" {}", x)).collect::<String>())
+        format!("clu {} {} {}{} {}", self.g.tokens(), self.weighted as u8, self.subset.len(), self.subset.iter().map(|x| format!(" {}", x)).collect::<String>(), self.wdiv)
     }
     pub fn parse(t: &mut Toks) -> Case {
         let g = GraphCase::parse(t);
         let weighted = t.next() != 0;
         let subset = t.list(|t| t.next() as u32);
-        Case { g, weighted, subset }
+        let wdiv = t.next() as u32;
+        Case { g, weighted, subset, wdiv }
     }
 }
 
@@ -70,7 +74,7 @@ fn p_f(r: &Result<f64, Error>, f: impl Fn(f64) -> String) -> String {
 }
 
 pub fn observe(c: &Case) -> String {
-    let g = match c.g.build() {
+    let g = match c.g.build_scaled(c.wdiv.max(1)) {
         Ok(g) => g,
         Err(e) => return format!("i.build=E{}", err_code(&e.kind)),
     };
@@ -107,7 +111,7 @@ pub fn gen_case(rng: &mut Rng, _profile: &str, size: usize) -> Case {
     if subset.is_empty() { subset.push(*rng.pick(&g.nodes)); }
     if rng.chance(7) { subset.push(99); }
     rng.shuffle(&mut subset);
-    Case { g, weighted, subset }
+    Case { g, weighted, subset, wdiv: *rng.pick(&[1u32, 1, 2, 2, 4]) }
 }
 
 pub fn candidates(c: &Case) -> Vec<String> {
